@@ -1,4 +1,5 @@
 import inspect
+from copy import copy
 from collections.abc import Mapping
 from datetime import date, datetime, time, timedelta, timezone
 from decimal import Decimal
@@ -705,6 +706,10 @@ class ParserField:
                     f"Field(name={repr(self.name)}) aliases: {inter} conflict with fields"
                 )
 
+        # a field taken over from a base class is the base parser's own object: what this parser resolves differently
+        # goes to a copy, the base keeps what it resolved (declaring a subclass must not change its base)
+        target = self
+
         if self.dependencies:
             dependencies = []
             attr_dependencies = []
@@ -737,8 +742,13 @@ class ParserField:
                     dependencies.append(field.name)
                 if field.attname not in attr_dependencies:
                     attr_dependencies.append(field.attname)
-            self.dependencies = set(dependencies)
-            self.attr_dependencies = set(attr_dependencies)
+            dependencies, attr_dependencies = set(dependencies), set(attr_dependencies)
+            if self.fields_applied and (
+                dependencies != self.dependencies or attr_dependencies != self.attr_dependencies
+            ):
+                target = copy(self)
+            target.dependencies = dependencies
+            target.attr_dependencies = attr_dependencies
 
         if self.field.deprecated_to:
             to = self.field.deprecated_to
@@ -749,7 +759,14 @@ class ParserField:
                     f"Field(name={repr(self.name)}) is deprecated,"
                     f" but prefer field : {repr(to)} not exists"
                 )
-            self.deprecated_to = to
+            if self.fields_applied and target is self and to != self.deprecated_to:
+                target = copy(self)
+            target.deprecated_to = to
+
+        target.fields_applied = True
+        return target
+
+    fields_applied = False
 
     def resolve_forward_refs(self):
         if self.type:
